@@ -140,6 +140,16 @@ def stuck_shape(toks):
     stuck = [x for x in started if x not in returned]
     # a multi-type typed Subscribe that has not returned, an Emit of one of its types that has not returned,
     # and a third operation that needs basicBus.lk (Emitter(), Emitter.Close, Subscribe, Subscription.Close)
+    # two multi-type typed Subscribes that have not returned and share types, plus Emits of their types that have
+    # not returned: each Emit holds a node lock and is stalled on the other, half-registered subscription
+    multi = [b for a, b in stuck if a == 3 and not subs[b][0] and len(subs[b][2]) >= 2]
+    for x in multi:
+        for y in multi:
+            if x < y and set(subs[x][2]) & set(subs[y][2]):
+                tys = set(subs[x][2]) | set(subs[y][2])
+                n_em = sum(1 for a2, b2 in stuck if a2 == 2 and ems[emits[b2][0]][0] in tys)
+                if n_em >= 2 and not any(a2 in (0, 1) for a2, b2 in stuck):
+                    return "crossing-multi-type-Subscribes+Emits-stalled-on-half-registered-subscriptions"
     for a, b in stuck:
         if a == 3 and not subs[b][0] and len(subs[b][2]) >= 2:
             tys = set(subs[b][2])
@@ -158,6 +168,8 @@ def key(tag, toks, d):
         nt, ems, subs, emits, labs = parse(toks)
         if rule == 12:
             shape = stuck_shape(toks)
+            if shape and shape.startswith("crossing"):
+                return "C15:rule12:deadlock:node.emit-sends-under-n.lk-to-subscriptions-not-yet-returned:" + shape
             if shape:
                 return "C15:rule12:deadlock:withNode/tryDropNode-hold-basicBus.lk-while-waiting-for-n.lk:" + shape
         if rule == 13:
